@@ -381,9 +381,68 @@ class MonC09(Monitor):
                     calls_before = calls_after
         return fails
 
+    @staticmethod
+    def deep_state(seq) -> dict:
+        """Everything a failed call could leave behind, including what the model does not cover."""
+        def slot(s):
+            t = s.type
+            return (t if isinstance(t, str) else ("P", int(t.duration), float(t.phase)), int(s.ti), int(s.tf),
+                    sorted(map(str, s.targets)))
+        return dict(
+            calls=len(seq._calls), stored=len(seq._to_build_calls), xy=bool(seq._in_xy), ising=bool(seq._in_ising),
+            mag=repr(seq._mag_field), slm_targets=sorted(map(str, seq._slm_mask_targets)), slm_dmm=repr(seq._slm_mask_dmm),
+            building=bool(seq._building), empty=bool(seq._empty_sequence), measured=repr(getattr(seq, "_measurement", None)),
+            variables=sorted(seq._variables),
+            chans={n: ([slot(x) for x in sch.slots], [(int(b.ti), b.tf, repr(b.detuning_off)) for b in sch.eom_blocks])
+                   for n, sch in seq._schedule.items()},
+            refs={b: {str(q): (tuple(r.phase._times), tuple(map(float, r.phase._phases)), int(r.last_used))
+                      for q, r in d.items()} for b, d in seq._basis_ref.items()},
+        )
+
+    def invalid_call_probe(self, ls):
+        """Invalid calls of kinds the model does not cover (SLM mask, magnetic field, detuning map, unknown
+        channel ids), tried on a deep copy of the sequence: each must raise and leave the copy as it was."""
+        import copy
+
+        fails = []
+        dev = ls.real.dev
+        q0 = dev.qids[0]
+        try:
+            base = copy.deepcopy(ls.real.seq)
+        except Exception:  # noqa: BLE001
+            return fails
+        probes = [
+            ("config_slm_mask(unknown dmm)", lambda s: s.config_slm_mask([q0], "dmm_99")),
+            ("config_slm_mask(unknown qubit)", lambda s: s.config_slm_mask(["no_such_qubit"])),
+            ("config_slm_mask(taken dmm)", lambda s: s.config_slm_mask([q0], "dmm_0")),
+            ("set_magnetic_field(0,0,0)", lambda s: s.set_magnetic_field(0.0, 0.0, 0.0)),
+            ("declare_channel(unknown id)", lambda s: s.declare_channel("zz_probe", "no_such_channel")),
+            ("config_detuning_map(unknown dmm)",
+             lambda s: s.config_detuning_map(s.register.define_detuning_map({q0: 1.0}), "dmm_99")),
+            ("measure(unknown basis)", lambda s: s.measure("no_such_basis")),
+        ]
+        with warnings.catch_warnings():
+            warnings.simplefilter("ignore")
+            for name, fn in probes:
+                try:
+                    seq = copy.deepcopy(base)
+                    before = self.deep_state(seq)
+                except Exception:  # noqa: BLE001
+                    continue
+                try:
+                    fn(seq)
+                except Exception as e:  # noqa: BLE001
+                    after = self.deep_state(seq)
+                    if after != before:
+                        diff = sorted(k for k in before if before[k] != after[k])
+                        fails.append(self.F("failed-call-not-atomic",
+                                            f"{name} raised {type(e).__name__} but changed {diff}",
+                                            op=name.split("(")[0], err=type(e).__name__, what=",".join(diff), probe=True))
+        return fails
+
     def end(self, ls):
         """The state is reproducible from the record of successful calls."""
-        fails = []
+        fails = self.invalid_call_probe(ls) if self.n % 3 == 0 else []
         seq = ls.real.seq
         if seq.is_parametrized() or not seq._schedule or self.tainted:
             return fails
